@@ -406,6 +406,9 @@ class IncidentObserver(Referenceable):
     def save_incident(self, filename, incident):
         now = time.time()
         (header, events) = incident
+        if os.path.islink(filename):
+            # never write through a symlink that is already there
+            os.unlink(filename)
         f = bz2.BZ2File(filename, "w")
         f.write(flogfile.MAGIC)
         flogfile.serialize_raw_header(f, header)
@@ -414,7 +417,10 @@ class IncidentObserver(Referenceable):
         f.close()
 
     def update_latest(self, name):
-        f = open(self.basedir.child("latest").path, "w")
+        latest_fn = self.basedir.child("latest").path
+        if os.path.islink(latest_fn):
+            os.unlink(latest_fn)
+        f = open(latest_fn, "w")
         f.write(name + "\n")
         f.close()
 
